@@ -728,18 +728,20 @@ class WalletTransaction(Transaction):
             if inp.sequence:
                 sequence = inp.sequence
             inp_keys = []
+            sigs_required = None
             if inp.key_id:
                 key = hdwallet.key(inp.key_id)
                 if key.key_type == 'multisig':
                     db_key = sess.query(DbKey).filter_by(id=key.key_id).scalar()
                     for ck in db_key.multisig_children:
                         inp_keys.append(ck.child_key.public.hex())
+                    sigs_required = hdwallet.multisig_n_required
                 else:
                     inp_keys = key.key()
 
             inputs.append(Input(
                 prev_txid=inp.prev_txid, output_n=inp.output_n, keys=inp_keys, unlocking_script=inp.script,
-                script_type=inp.script_type, sequence=sequence, index_n=inp.index_n, value=inp.value,
+                sigs_required=sigs_required, script_type=inp.script_type, sequence=sequence, index_n=inp.index_n, value=inp.value,
                 double_spend=inp.double_spend, witness_type=inp.witness_type, network=network, address=inp.address,
                 witnesses=inp.witnesses))
 
